@@ -1102,9 +1102,9 @@ func callBuiltin(caller *frame, callpos token.Pos, fn *ssa.Builtin, args []value
 		}
 
 	case "min":
-		return foldLeft(min, args)
+		return foldLeft(func(x, y value) value { return caller.symMinMax(token.LSS, x, y, min) }, args)
 	case "max":
-		return foldLeft(max, args)
+		return foldLeft(func(x, y value) value { return caller.symMinMax(token.GTR, x, y, max) }, args)
 
 	case "real":
 		switch c := args[0].(type) {
@@ -1169,9 +1169,41 @@ func (fr *frame) rangeIter(x value, t types.Type) iter {
 	case string:
 		return &stringIter{Reader: strings.NewReader(x)}
 	case SymString:
-		panic(pathAbort{"unsupported", "range over a symbolic string"})
+		// rune by rune through utf8.DecodeRuneInString's own SSA (its
+		// branches on the bytes become path decisions)
+		pkg := fr.i.prog.ImportedPackage("unicode/utf8")
+		if pkg == nil || pkg.Func("DecodeRuneInString") == nil {
+			panic(pathAbort{"unsupported", "range over a symbolic string (unicode/utf8 not loaded)"})
+		}
+		flat := fr.i.ex.flatten(x)
+		return &symStringIter{fr: fr, segs: strSegs(flat), decode: pkg.Func("DecodeRuneInString")}
 	}
 	panic(fmt.Sprintf("cannot range over %T", x))
+}
+
+type symStringIter struct {
+	fr     *frame
+	segs   []Seg
+	i      int
+	decode *ssa.Function
+}
+
+func (it *symStringIter) next() tuple {
+	okv := make(tuple, 3)
+	if it.i >= len(it.segs) {
+		okv[0] = false
+		return okv
+	}
+	res := call(it.fr.i, it.fr, 0, it.decode, []value{mkString(it.segs[it.i:])}).(tuple)
+	size, ok := concreteInt(res[1])
+	if !ok {
+		panic(pathAbort{"unsupported", "range over a symbolic string: symbolic rune width"})
+	}
+	okv[0] = true
+	okv[1] = it.i
+	okv[2] = res[0]
+	it.i += int(size)
+	return okv
 }
 
 // widen widens a basic typed value x to the widest type of its
@@ -1532,6 +1564,35 @@ func checkInterface(i *interpreter, itype *types.Interface, x iface) string {
 			x.t, itype, meth.Name())
 	}
 	return "" // ok
+}
+
+// symMinMax is min/max with symbolic operands: the comparison y op x is a
+// branch. Symbolic floats follow the builtin's NaN rule (NaN wins).
+func (fr *frame) symMinMax(op token.Token, x, y value, concrete func(value, value) value) value {
+	if !isSym(x) && !isSym(y) {
+		return concrete(x, y)
+	}
+	for _, v := range []value{y, x} {
+		if sf, ok := v.(SymFloat); ok {
+			if fr.i.ex.Branch(FpIsNaN(sf.T)) {
+				return v
+			}
+		}
+	}
+	c := symBinop(op, y, x)
+	switch c := c.(type) {
+	case bool:
+		if c {
+			return y
+		}
+		return x
+	case SymBool:
+		if fr.i.ex.Branch(c.T) {
+			return y
+		}
+		return x
+	}
+	panic(fmt.Sprintf("symMinMax: %T", c))
 }
 
 func foldLeft(op func(value, value) value, args []value) value {
